@@ -17,6 +17,9 @@ Proof.
   destruct (P a); simpl; rewrite (IH vs) by lia; reflexivity.
 Qed.
 
+Lemma Forall2_len {A B} (R : A -> B -> Prop) l l' : Forall2 R l l' -> length l = length l'.
+Proof. induction 1; simpl; auto. Qed.
+
 Section Entries.
   Context {V : Type} (vzero : V) (vadd : V -> V -> V).
   Variable isBc : list bool.
@@ -126,3 +129,323 @@ Section Entries.
     destruct (is_unknown isBc da), (is_unknown isBc db); simpl; auto using andb_false_r.
   Qed.
 End Entries.
+
+(* ------------------------------------------------------------------ symmetry (commutative monoid of values) *)
+Section CMon.
+  Context {V : Type} (vzero : V) (vadd : V -> V -> V).
+  Hypothesis vadd_comm : forall x y, vadd x y = vadd y x.
+  Hypothesis vadd_assoc : forall x y z, vadd x (vadd y z) = vadd (vadd x y) z.
+  Hypothesis vadd_0_l : forall x, vadd vzero x = x.
+
+  Definition msum (l : list V) : V := fold_right vadd vzero l.
+
+  Lemma msum_app l1 l2 : msum (l1 ++ l2) = vadd (msum l1) (msum l2).
+  Proof. induction l1; simpl; [symmetry; apply vadd_0_l|rewrite IHl1; apply vadd_assoc]. Qed.
+
+  Lemma msum_flat_map {A} (g : A -> list V) l : msum (flat_map g l) = msum (map (fun a => msum (g a)) l).
+  Proof. induction l; simpl; auto. rewrite msum_app, IHl; reflexivity. Qed.
+
+  Lemma msum_map_add {A} (F G : A -> V) Y :
+    msum (map (fun b => vadd (F b) (G b)) Y) = vadd (msum (map F Y)) (msum (map G Y)).
+  Proof.
+    induction Y as [|b Y IH]; simpl; [symmetry; apply vadd_0_l|]. rewrite IH.
+    rewrite !vadd_assoc. f_equal. rewrite <- !vadd_assoc. f_equal. apply vadd_comm.
+  Qed.
+
+  Lemma msum_zero {A} (Y : list A) : msum (map (fun _ => vzero) Y) = vzero.
+  Proof. induction Y; simpl; auto. rewrite IHY; apply vadd_0_l. Qed.
+
+  Lemma msum_swap {A B} (F : A -> B -> V) X Y :
+    msum (map (fun a => msum (map (F a) Y)) X) = msum (map (fun b => msum (map (fun a => F a b) X)) Y).
+  Proof.
+    induction X as [|a X IH]; simpl; [symmetry; apply msum_zero|].
+    rewrite IH, <- msum_map_add. reflexivity.
+  Qed.
+
+  Lemma msum_list_prod_swap {A B} (h : A -> B -> V) X Y :
+    msum (map (fun ab => h (fst ab) (snd ab)) (list_prod X Y)) = msum (map (fun ba => h (snd ba) (fst ba)) (list_prod Y X)).
+  Proof.
+    rewrite !map_list_prod, !msum_flat_map. simpl. apply msum_swap.
+  Qed.
+
+  Lemma sum_where_msum {X} (P : X -> bool) (l : list (X * V)) :
+    sum_where vzero vadd P l = msum (map (fun xv => if P (fst xv) then snd xv else vzero) l).
+  Proof.
+    unfold sum_where. induction l as [|[x v] l IH]; simpl; auto.
+    rewrite IH. destruct (P x); [reflexivity|symmetry; apply vadd_0_l].
+  Qed.
+
+  Lemma sum_where_app {X} (P : X -> bool) (l1 l2 : list (X * V)) :
+    sum_where vzero vadd P (l1 ++ l2) = vadd (sum_where vzero vadd P l1) (sum_where vzero vadd P l2).
+  Proof. rewrite !sum_where_msum, map_app. apply msum_app. Qed.
+
+  (* one symmetric block: re-indexing the selection by (b, a) does not change the selected sum *)
+  Lemma el_sym (K : nat -> nat -> V) X (f : nat * nat -> bool) :
+    (forall a b, In a X -> In b X -> K a b = K b a) ->
+    msum (map (fun ab => if f ab then K (fst ab) (snd ab) else vzero) (list_prod X X))
+    = msum (map (fun ab => if f (snd ab, fst ab) then K (fst ab) (snd ab) else vzero) (list_prod X X)).
+  Proof.
+    intros Hs. set (h := fun a b => if f (a, b) then K a b else vzero).
+    transitivity (msum (map (fun ab => h (fst ab) (snd ab)) (list_prod X X))).
+    { f_equal. apply map_ext. intros [a b]. reflexivity. }
+    rewrite msum_list_prod_swap. f_equal. apply map_ext_in. intros [x y] Hin.
+    apply in_prod_iff in Hin. destruct Hin as [Hx Hy]. unfold h. simpl.
+    rewrite (Hs y x) by assumption. reflexivity.
+  Qed.
+
+  Variable isBc : list bool.
+  Variable dim : nat.
+
+  (* element matrices given as functions of the local indices; kvals is their row-major flattening *)
+  Definition kvals_of (conns : list (list nat)) (Ks : list (nat -> nat -> V)) : list (list V) :=
+    map (fun eK => map (fun ab => snd eK (fst ab) (snd ab)) (el_pairs dim (fst eK))) (combine conns Ks).
+
+  Definition blocks_symmetric (conns : list (list nat)) (Ks : list (nat -> nat -> V)) : Prop :=
+    Forall2 (fun en K => forall a b, a < length (el_dofs dim en) -> b < length (el_dofs dim en) -> K a b = K b a) conns Ks.
+
+  Lemma kvals_of_ok conns Ks : length conns = length Ks -> blocks_ok dim conns (kvals_of conns Ks).
+  Proof.
+    unfold blocks_ok, kvals_of. revert Ks; induction conns as [|en conns IH]; intros [|K Ks] H; simpl in *; try discriminate; constructor.
+    - rewrite map_length; reflexivity.
+    - apply IH; lia.
+  Qed.
+
+  Lemma combine_map_r {A B} (G : A -> B) l : combine l (map G l) = map (fun a => (a, G a)) l.
+  Proof. induction l; simpl; auto. rewrite IHl; reflexivity. Qed.
+
+  Lemma all_entries_of conns Ks : length conns = length Ks ->
+    all_entries dim conns (kvals_of conns Ks)
+    = flat_map (fun eK => map (fun ab => ((fst eK, ab), snd eK (fst ab) (snd ab))) (el_pairs dim (fst eK))) (combine conns Ks).
+  Proof.
+    unfold all_entries, kvals_of. revert Ks; induction conns as [|en conns IH]; intros [|K Ks] H; simpl in *; try discriminate; auto.
+    rewrite IH by lia. f_equal. rewrite combine_map_r, map_map. reflexivity.
+  Qed.
+
+  Lemma sum_where_sym_swap conns Ks (f : list nat -> nat * nat -> bool) :
+    blocks_symmetric conns Ks ->
+    sum_where vzero vadd (fun x => f (fst x) (snd x)) (all_entries dim conns (kvals_of conns Ks))
+    = sum_where vzero vadd (fun x => f (fst x) (snd (snd x), fst (snd x))) (all_entries dim conns (kvals_of conns Ks)).
+  Proof.
+    intros HS. assert (HL : length conns = length Ks) by (eapply Forall2_len; eassumption).
+    rewrite all_entries_of by assumption. clear HL.
+    induction HS as [|en K conns Ks Hs HS IH]; simpl; auto.
+    rewrite !sum_where_app, IH. f_equal.
+    rewrite !sum_where_msum, !map_map. simpl.
+    unfold el_pairs. cbv zeta.
+    apply (el_sym K (seq 0 (length (el_dofs dim en))) (fun ab => f en ab)).
+    intros a b Ha Hb. apply in_seq in Ha. apply in_seq in Hb. apply Hs; lia.
+  Qed.
+
+  (* T3: symmetric element blocks give a symmetric assembled matrix *)
+  Lemma assembly_symmetric conns Ks i j :
+    Forall (el_in_range isBc dim) conns -> blocks_symmetric conns Ks ->
+    dense vzero vadd (coo_triples isBc dim conns (kvals_of conns Ks)) i j
+    = dense vzero vadd (coo_triples isBc dim conns (kvals_of conns Ks)) j i.
+  Proof.
+    intros HR HS. assert (HL : length conns = length Ks) by (eapply Forall2_len; eassumption).
+    rewrite !assembly_entries by (auto using kvals_of_ok).
+    pose proof (sum_where_sym_swap conns Ks (fun en ab => lands_at isBc dim i j (en, ab)) HS) as E.
+    etransitivity; [|etransitivity; [exact E|]]; apply sum_where_ext_in; intros [en [a b]] v _; [reflexivity|].
+    unfold lands_at, el_both_unknown, el_coord. simpl.
+    destruct (is_unknown isBc (nth a (el_dofs dim en) 0)), (is_unknown isBc (nth b (el_dofs dim en) 0)); simpl; auto.
+    apply andb_comm.
+  Qed.
+
+  (* T3': with symmetric blocks the transposition is invisible: the reduced matrix is also the restriction of the
+     straight scatter  P^T (sum_e G_e^T K_e G_e) P *)
+  Lemma assembly_is_PtKP conns Ks i j :
+    Forall (el_in_range isBc dim) conns -> blocks_symmetric conns Ks ->
+    i < get_unknown_size isBc -> j < get_unknown_size isBc ->
+    dense vzero vadd (coo_triples isBc dim conns (kvals_of conns Ks)) (Z.of_nat i) (Z.of_nat j)
+    = sum_where vzero vadd (scatters_to_straight dim (nth i (unknownIndices isBc) 0) (nth j (unknownIndices isBc) 0))
+                (all_entries dim conns (kvals_of conns Ks)).
+  Proof.
+    intros HR HS Hi Hj. assert (HL : length conns = length Ks) by (eapply Forall2_len; eassumption).
+    rewrite assembly_is_restriction by (auto using kvals_of_ok).
+    pose proof (sum_where_sym_swap conns Ks
+               (fun en ab => scatters_to dim (nth i (unknownIndices isBc) 0) (nth j (unknownIndices isBc) 0) (en, ab)) HS) as E.
+    etransitivity; [|etransitivity; [exact E|]]; apply sum_where_ext_in; intros [en [a b]] v _; reflexivity.
+  Qed.
+End CMon.
+
+(* ------------------------------------------------------------------ per-block scatter loops *)
+Section BlockScatter.
+  Context {W : Type}.
+
+  Lemma scatter_map_spec (f : nat -> W) ids : forall acc,
+    length (scatter acc ids (map f ids)) = length acc
+    /\ forall e d, nth e (scatter acc ids (map f ids)) d
+                   = if existsb (Nat.eqb e) ids && (e <? length acc) then f e else nth e acc d.
+  Proof.
+    unfold scatter. induction ids as [|i ids IH]; intros acc; simpl.
+    - split; auto.
+    - destruct (IH (set_nth i (f i) acc)) as [L S]. rewrite set_nth_length in *. split; [assumption|].
+      intros e d. rewrite S. destruct (Nat.eqb_spec e i) as [->|NE]; simpl.
+      + destruct (Nat.ltb_spec i (length acc)) as [Hlt|Hge]; rewrite ?andb_true_r, ?andb_false_r.
+        * rewrite nth_set_nth_eq by assumption. destruct (existsb (Nat.eqb i) ids); reflexivity.
+        * rewrite !nth_overflow by (rewrite ?set_nth_length; assumption). reflexivity.
+      + rewrite nth_set_nth_neq by assumption. reflexivity.
+  Qed.
+
+  (* after the loop over all blocks every covered element holds f(e); uncovered ones keep the base value *)
+  Lemma multi_block_scatter_spec (f : nat -> W) blocks : forall base,
+    length (multi_block_scatter f blocks base) = length base
+    /\ forall e d, nth e (multi_block_scatter f blocks base) d
+                   = if existsb (fun ids => existsb (Nat.eqb e) ids) blocks && (e <? length base) then f e else nth e base d.
+  Proof.
+    unfold multi_block_scatter. induction blocks as [|ids blocks IH]; intros base; simpl.
+    - split; auto.
+    - destruct (IH (scatter base ids (map f ids))) as [L S].
+      destruct (scatter_map_spec f ids base) as [L0 S0]. rewrite L0 in *. split; [assumption|].
+      intros e d. rewrite S, S0.
+      destruct (existsb (Nat.eqb e) ids), (existsb (fun ids0 => existsb (Nat.eqb e) ids0) blocks), (e <? length base); reflexivity.
+  Qed.
+
+  Definition covers (nElements : nat) (blocks : list (list nat)) : Prop :=
+    forall e, e < nElements -> exists ids, In ids blocks /\ In e ids.
+
+  (* blocks that cover 0..ne-1 (overlaps and any order allowed) reproduce the unblocked per-element array *)
+  Lemma multi_block_scatter_full (f : nat -> W) blocks base :
+    covers (length base) blocks -> multi_block_scatter f blocks base = map f (seq 0 (length base)).
+  Proof.
+    intros HC. destruct (multi_block_scatter_spec f blocks base) as [L S].
+    destruct base as [|w0 base'] eqn:Eb.
+    { destruct (multi_block_scatter f blocks []); simpl in *; [reflexivity|discriminate]. }
+    rewrite <- Eb in *. apply (nth_ext _ _ w0 (f 0)).
+    - rewrite L, map_length, seq_length. reflexivity.
+    - intros e He. rewrite L in He. rewrite S.
+      assert (Hex : existsb (fun ids => existsb (Nat.eqb e) ids) blocks = true).
+      { destruct (HC e He) as (ids & H1 & H2). apply existsb_exists. exists ids. split; auto.
+        apply existsb_exists. exists e. split; auto. apply Nat.eqb_refl. }
+      rewrite Hex. replace (e <? length base) with true by (symmetry; apply Nat.ltb_lt; assumption). simpl.
+      rewrite (map_nth f (seq 0 (length base)) 0 e). rewrite seq_nth by assumption. reflexivity.
+  Qed.
+End BlockScatter.
+
+Section BlockEnergy.
+  Context {V : Type} (vzero : V) (vadd : V -> V -> V).
+  Hypothesis vadd_comm : forall x y, vadd x y = vadd y x.
+  Hypothesis vadd_assoc : forall x y z, vadd x (vadd y z) = vadd (vadd x y) z.
+  Hypothesis vadd_0_l : forall x, vadd vzero x = x.
+
+  Lemma msum_perm l l' : Permutation l l' -> msum vzero vadd l = msum vzero vadd l'.
+  Proof.
+    induction 1; simpl; auto; try congruence.
+  Qed.
+
+  Lemma multi_block_energy_concat ee blocks : forall acc,
+    fold_left (fun a ids => vadd a (block_energy vzero vadd ee ids)) blocks acc
+    = vadd acc (msum vzero vadd (map ee (concat blocks))).
+  Proof.
+    induction blocks as [|ids blocks IH]; intros acc; simpl.
+    - rewrite vadd_comm. symmetry; apply vadd_0_l.
+    - rewrite IH. rewrite map_app, (msum_app vzero vadd vadd_assoc vadd_0_l). unfold block_energy, msum.
+      rewrite vadd_assoc. reflexivity.
+  Qed.
+
+  (* blocks that partition 0..ne-1 (each element exactly once, any order): the multi-block energy is the single-block one *)
+  Lemma multi_block_energy_partition ee blocks nElements :
+    Permutation (concat blocks) (seq 0 nElements) ->
+    multi_block_energy vzero vadd ee blocks = single_block_energy vzero vadd ee nElements.
+  Proof.
+    intros HP. unfold multi_block_energy, single_block_energy. rewrite multi_block_energy_concat, vadd_0_l.
+    unfold block_energy. apply (msum_perm (map ee (concat blocks)) (map ee (seq 0 nElements))).
+    apply Permutation_map; assumption.
+  Qed.
+End BlockEnergy.
+
+(* ------------------------------------------------------------------ the transposition is real: a non-symmetric block *)
+(* one 1-node element, 2 fields, no BC, block [[1 2] [3 4]]: the assembled (0,1) entry is K_e[1,0] = 3, not K_e[0,1] = 2 *)
+Lemma transposed_witness :
+  let isBc := mk_isBc 1 2 [] in
+  let t := coo_triples isBc 2 [[0]] [[1; 2; 3; 4]%Z] in
+  dense 0%Z Z.add t 0 1 = 3%Z /\ dense 0%Z Z.add t 1 0 = 2%Z
+  /\ sum_where 0%Z Z.add (scatters_to_straight 2 0 1) (all_entries 2 [[0]] [[1; 2; 3; 4]%Z]) = 2%Z
+  /\ Forall (el_in_range isBc 2) [[0]] /\ blocks_ok 2 [[0]] [[1; 2; 3; 4]%Z].
+Proof.
+  repeat split; try reflexivity.
+  - repeat constructor.
+  - repeat constructor.
+Qed.
+
+Lemma transposed_refuted :
+  exists (isBc : list bool) (dim : nat) (conns : list (list nat)) (kvals : list (list Z)) (i j : nat),
+    Forall (el_in_range isBc dim) conns /\ blocks_ok dim conns kvals
+    /\ i < get_unknown_size isBc /\ j < get_unknown_size isBc
+    /\ dense 0%Z Z.add (coo_triples isBc dim conns kvals) (Z.of_nat i) (Z.of_nat j)
+       <> sum_where 0%Z Z.add (scatters_to_straight dim (nth i (unknownIndices isBc) 0) (nth j (unknownIndices isBc) 0))
+                    (all_entries dim conns kvals).
+Proof.
+  exists (mk_isBc 1 2 []), 2, [[0]], [[1; 2; 3; 4]%Z], 0, 1.
+  destruct transposed_witness as (H1 & H2 & H3 & H4 & H5).
+  repeat split; auto; try (vm_compute; lia).
+Qed.
+
+(* non-vacuity of the hypotheses used above: a two-element mesh with BCs, symmetric integer blocks, two blocks covering it *)
+Definition ex_Ks : list (nat -> nat -> Z) := [(fun a b => Z.of_nat (a + b + a * b)); (fun a b => Z.of_nat (7 * a * b + 1))].
+Lemma c02_nonvacuous :
+  Forall (el_in_range ex_isBc 2) ex_conns /\ blocks_symmetric 2 ex_conns ex_Ks
+  /\ blocks_ok 2 ex_conns (kvals_of 2 ex_conns ex_Ks)
+  /\ covers 2 [[1]; [0]] /\ Permutation (concat [[1]; [0]]) (seq 0 2)
+  /\ dense_matrix 0%Z Z.add 5 (coo_triples ex_isBc 2 ex_conns (kvals_of 2 ex_conns ex_Ks))
+     = [[3; 5; 7; 11; 0]; [5; 37; 54; 32; 71]; [7; 54; 79; 45; 106]; [11; 32; 45; 43; 36]; [0; 71; 106; 36; 176]]%Z.
+Proof.
+  split; [apply ex_values|]. split.
+  { repeat constructor; intros a b _ _; f_equal; lia. }
+  split; [apply kvals_of_ok; reflexivity|]. split.
+  { intros e He. destruct e as [|[|e]]; [exists [0]|exists [1]|lia]; simpl; auto. }
+  split; [simpl; apply perm_swap|].
+  vm_compute. reflexivity.
+Qed.
+
+(* ------------------------------------------------------------------ packaged statements (valid connectivity instead of el_in_range) *)
+From Coq Require Import Reals.
+
+Lemma assembly_entries_full (V : Type) (vzero : V) (vadd : V -> V -> V) isBc dim nNodes conns (kvals : list (list V)) i j :
+  length isBc = nNodes * dim -> valid_conns nNodes conns -> blocks_ok dim conns kvals ->
+  dense vzero vadd (coo_triples isBc dim conns kvals) i j
+  = sum_where vzero vadd (lands_at isBc dim i j) (all_entries dim conns kvals).
+Proof. intros HN HV HB. apply assembly_entries; eauto using valid_conns_in_range. Qed.
+
+Lemma assembly_is_restriction_full (V : Type) (vzero : V) (vadd : V -> V -> V) isBc dim nNodes conns (kvals : list (list V)) i j :
+  length isBc = nNodes * dim -> valid_conns nNodes conns -> blocks_ok dim conns kvals ->
+  i < get_unknown_size isBc -> j < get_unknown_size isBc ->
+  dense vzero vadd (coo_triples isBc dim conns kvals) (Z.of_nat i) (Z.of_nat j)
+  = sum_where vzero vadd (scatters_to dim (nth i (unknownIndices isBc) 0) (nth j (unknownIndices isBc) 0))
+              (all_entries dim conns kvals).
+Proof. intros HN HV HB. apply assembly_is_restriction; eauto using valid_conns_in_range. Qed.
+
+Lemma Rplus_assoc' (x y z : R) : (x + (y + z) = x + y + z)%R.
+Proof. symmetry; apply Rplus_assoc. Qed.
+
+Lemma assembly_symmetric_R isBc dim nNodes conns (Ks : list (nat -> nat -> R)) i j :
+  length isBc = nNodes * dim -> valid_conns nNodes conns -> blocks_symmetric dim conns Ks ->
+  dense 0%R Rplus (coo_triples isBc dim conns (kvals_of dim conns Ks)) i j
+  = dense 0%R Rplus (coo_triples isBc dim conns (kvals_of dim conns Ks)) j i.
+Proof.
+  intros HN HV HS. apply (assembly_symmetric 0%R Rplus Rplus_comm Rplus_assoc' Rplus_0_l); eauto using valid_conns_in_range.
+Qed.
+
+Lemma assembly_is_PtKP_R isBc dim nNodes conns (Ks : list (nat -> nat -> R)) i j :
+  length isBc = nNodes * dim -> valid_conns nNodes conns -> blocks_symmetric dim conns Ks ->
+  i < get_unknown_size isBc -> j < get_unknown_size isBc ->
+  dense 0%R Rplus (coo_triples isBc dim conns (kvals_of dim conns Ks)) (Z.of_nat i) (Z.of_nat j)
+  = sum_where 0%R Rplus (scatters_to_straight dim (nth i (unknownIndices isBc) 0) (nth j (unknownIndices isBc) 0))
+              (all_entries dim conns (kvals_of dim conns Ks)).
+Proof.
+  intros HN HV HS. apply (assembly_is_PtKP 0%R Rplus Rplus_comm Rplus_assoc' Rplus_0_l); eauto using valid_conns_in_range.
+Qed.
+
+Lemma blocks_partition_full :
+  (* states / element Hessians: blocks that cover all elements (any order, overlaps allowed, same per-element function) *)
+  (forall (W : Type) (f : nat -> W) blocks base,
+      covers (length base) blocks -> multi_block_scatter f blocks base = map f (seq 0 (length base)))
+  (* energies: blocks that contain every element exactly once *)
+  /\ (forall (ee : nat -> R) blocks nElements,
+      Permutation (concat blocks) (seq 0 nElements) ->
+      multi_block_energy 0%R Rplus ee blocks = single_block_energy 0%R Rplus ee nElements).
+Proof.
+  split.
+  - intros; apply multi_block_scatter_full; assumption.
+  - intros; apply (multi_block_energy_partition 0%R Rplus Rplus_comm Rplus_assoc' Rplus_0_l); assumption.
+Qed.
